@@ -16,6 +16,15 @@ using namespace vp;
 #ifndef UDPPART
 #define UDPPART 0
 #endif
+// BIGREPLY: path MTU 2 and a 6-byte answer: more than one congestion window flows towards the (natted) connector,
+// so the transfer depends on its acknowledgements getting back through the NAT
+#ifdef BIGREPLY
+#define RLEN 6
+#else
+#define RLEN 1
+#endif
+// SAMEPORT: every client binds to the same local port on its own address before connecting (behind one shared
+// external address they become indistinguishable by visible endpoint, which must not matter)
 
 namespace {
 
@@ -38,7 +47,7 @@ address const EXT[2] = { address(address_v4(0x63000001)), address(address_v4(0x6
 struct client
 {
 	tcp::socket* sock; int id; int result = -1; long t_call = 0, t_done = -1;
-	unsigned char rx = 0; int rx_n = 0; int natted = -1;
+	unsigned char rx = 0; int rx_n = 0; int natted = -1; unsigned char rxb[RLEN + 1]; bool rx_ok = true;
 	tcp::endpoint local;
 };
 struct accepted
@@ -71,9 +80,9 @@ void on_accept(int i, error_code const& ec)
 			if (e) return;
 			ap->rx_n += int(n);
 			// answer with a byte that identifies this accepted socket
-			static unsigned char reply[NCLI];
-			reply[i] = (unsigned char)('a' + i);
-			ap->sock->async_write_some(asio::buffer(&reply[i], 1), [](error_code const&, std::size_t) {});
+			static unsigned char reply[NCLI][RLEN];
+			for (int k = 0; k < RLEN; ++k) reply[i][k] = (unsigned char)('a' + i + 4 * k);
+			boost::asio::async_write(*ap->sock, asio::buffer(reply[i], RLEN), [](error_code const&, std::size_t) {});
 		});
 	}
 	if (g_accepts_started < NCLI) start_accept();
@@ -98,6 +107,9 @@ void start_accept()
 extern "C" int harness_main()
 {
 	config cfg;
+#ifdef BIGREPLY
+	cfg.mtu = 2;
+#endif
 	simulation s(cfg);
 	asio::io_context& tios = s.get_io_context();
 	cfg.net.append(std::make_shared<queue>(tios, 0, duration(1000000), 0, "net"));
@@ -144,6 +156,10 @@ extern "C" int harness_main()
 		client& c = g_c[i];
 		c.id = i; c.sock = new tcp::socket(*cios[i % 2]);
 		c.sock->open(PROTO_V, ec);
+#ifdef SAMEPORT
+		c.sock->bind(tcp::endpoint(C[i % 2], 5000), ec);
+		vp_assert(!ec, 2);
+#endif
 		c.t_call = now_ns();
 		client* cp = &c;
 		c.sock->async_connect(g_listen_ep, [cp](error_code const& e)
@@ -155,7 +171,12 @@ extern "C" int harness_main()
 			static unsigned char hello[NCLI];
 			hello[cp->id] = (unsigned char)('A' + cp->id);
 			cp->sock->async_write_some(asio::buffer(&hello[cp->id], 1), [](error_code const&, std::size_t) {});
-			cp->sock->async_read_some(asio::buffer(&cp->rx, 1), [cp](error_code const& e2, std::size_t n) { if (!e2) cp->rx_n += int(n); });
+			boost::asio::async_read(*cp->sock, asio::buffer(cp->rxb, RLEN), [cp](error_code const& e2, std::size_t n)
+			{
+				if (e2) return;
+				cp->rx_n += int(n) - (RLEN - 1); cp->rx = cp->rxb[0];
+				for (int k = 0; k < RLEN; ++k) cp->rx_ok = cp->rx_ok && cp->rxb[k] == (unsigned char)(cp->rxb[0] + 4 * k);
+			});
 		});
 	}
 	// one connect to an endpoint nobody listens on (the server's other address, or another port)
@@ -197,7 +218,7 @@ extern "C" int harness_main()
 		if (a.overload == 1) vp_assert(a.peer_out == a_remote, 18);
 		// data written on either socket of the pair arrives at the other socket of that pair and nowhere else
 		vp_assert((a.rx_n == 1) & (a.rx == (unsigned char)('A' + i)), 19);
-		vp_assert((c.rx_n == 1) & (c.rx == (unsigned char)('a' + i)), 20);
+		vp_assert((c.rx_n == 1) & (c.rx == (unsigned char)('a' + i)) & c.rx_ok, 20);
 		// the connect cannot complete before a round trip
 		vp_assert(c.t_done >= c.t_call + 2000000, 21);
 	}
